@@ -8,244 +8,8 @@ use props::engine::*;
 use serde_json::{json, Value};
 use spec::*;
 
-#[derive(Clone, Copy, PartialEq, Eq, Debug)]
-enum Op {
-    Add,
-    Sub,
-    Mul,
-}
-impl Op {
-    fn model(self, a: &Dec, b: &Dec) -> Dec {
-        match self {
-            Op::Add => a.add(b),
-            Op::Sub => a.sub(b),
-            Op::Mul => a.mul(b),
-        }
-    }
-}
-
-type F2 = fn(&BigDecimal, &BigDecimal) -> BigDecimal;
-type FI = fn(&BigDecimal, &BigInt) -> BigDecimal;
-
-/// (name, op, swapped, f): result must equal  a op b  (or  b op a  when swapped)
-struct Shape<F> {
-    name: &'static str,
-    op: Op,
-    swapped: bool,
-    f: F,
-}
-macro_rules! sh {
-    ($name:expr, $op:ident, $sw:expr, $f:expr) => {
-        Shape { name: $name, op: Op::$op, swapped: $sw, f: $f }
-    };
-}
-
-fn dec_shapes() -> Vec<Shape<F2>> {
-    fn r(x: &BigDecimal) -> BigDecimalRef<'_> {
-        x.to_ref()
-    }
-    vec![
-        sh!("V+V", Add, false, |a, b| a.clone() + b.clone()),
-        sh!("V+R", Add, false, |a, b| a.clone() + b),
-        sh!("V+F", Add, false, |a, b| a.clone() + r(b)),
-        sh!("R+V", Add, false, |a, b| a + b.clone()),
-        sh!("R+R", Add, false, |a, b| a + b),
-        sh!("R+F", Add, false, |a, b| a + r(b)),
-        sh!("F+V", Add, false, |a, b| r(a) + b.clone()),
-        sh!("F+R", Add, false, |a, b| r(a) + b),
-        sh!("F+F", Add, false, |a, b| r(a) + r(b)),
-        sh!("V+=V", Add, false, |a, b| {
-            let mut t = a.clone();
-            t += b.clone();
-            t
-        }),
-        sh!("V+=R", Add, false, |a, b| {
-            let mut t = a.clone();
-            t += b;
-            t
-        }),
-        sh!("V+=F", Add, false, |a, b| {
-            let mut t = a.clone();
-            t += r(b);
-            t
-        }),
-        sh!("V-V", Sub, false, |a, b| a.clone() - b.clone()),
-        sh!("V-R", Sub, false, |a, b| a.clone() - b),
-        sh!("V-F", Sub, false, |a, b| a.clone() - r(b)),
-        sh!("R-V", Sub, false, |a, b| a - b.clone()),
-        sh!("R-R", Sub, false, |a, b| a - b),
-        sh!("R-F", Sub, false, |a, b| a - r(b)),
-        sh!("F-V", Sub, false, |a, b| r(a) - b.clone()),
-        sh!("F-R", Sub, false, |a, b| r(a) - b),
-        sh!("F-F", Sub, false, |a, b| r(a) - r(b)),
-        sh!("V-=V", Sub, false, |a, b| {
-            let mut t = a.clone();
-            t -= b.clone();
-            t
-        }),
-        sh!("V-=R", Sub, false, |a, b| {
-            let mut t = a.clone();
-            t -= b;
-            t
-        }),
-        sh!("V-=F", Sub, false, |a, b| {
-            let mut t = a.clone();
-            t -= r(b);
-            t
-        }),
-        sh!("V*V", Mul, false, |a, b| a.clone() * b.clone()),
-        sh!("V*R", Mul, false, |a, b| a.clone() * b),
-        sh!("R*V", Mul, false, |a, b| a * b.clone()),
-        sh!("R*R", Mul, false, |a, b| a * b),
-        sh!("V*=V", Mul, false, |a, b| {
-            let mut t = a.clone();
-            t *= b.clone();
-            t
-        }),
-        sh!("V*=R", Mul, false, |a, b| {
-            let mut t = a.clone();
-            t *= b;
-            t
-        }),
-    ]
-}
-
-fn int_shapes() -> Vec<Shape<FI>> {
-    fn r(x: &BigDecimal) -> BigDecimalRef<'_> {
-        x.to_ref()
-    }
-    vec![
-        sh!("V+I", Add, false, |a, i| a.clone() + i.clone()),
-        sh!("V+&I", Add, false, |a, i| a.clone() + i),
-        sh!("R+I", Add, false, |a, i| a + i.clone()),
-        sh!("R+&I", Add, false, |a, i| a + i),
-        sh!("F+I", Add, false, |a, i| r(a) + i.clone()),
-        sh!("F+&I", Add, false, |a, i| r(a) + i),
-        sh!("I+V", Add, true, |a, i| i.clone() + a.clone()),
-        sh!("I+R", Add, true, |a, i| i.clone() + a),
-        sh!("I+F", Add, true, |a, i| i.clone() + r(a)),
-        sh!("&I+V", Add, true, |a, i| i + a.clone()),
-        sh!("&I+R", Add, true, |a, i| i + a),
-        sh!("&I+F", Add, true, |a, i| i + r(a)),
-        sh!("V+=I", Add, false, |a, i| {
-            let mut t = a.clone();
-            t += i.clone();
-            t
-        }),
-        sh!("V+=&I", Add, false, |a, i| {
-            let mut t = a.clone();
-            t += i;
-            t
-        }),
-        sh!("V-I", Sub, false, |a, i| a.clone() - i.clone()),
-        sh!("V-&I", Sub, false, |a, i| a.clone() - i),
-        sh!("R-I", Sub, false, |a, i| a - i.clone()),
-        sh!("R-&I", Sub, false, |a, i| a - i),
-        sh!("F-I", Sub, false, |a, i| r(a) - i.clone()),
-        sh!("F-&I", Sub, false, |a, i| r(a) - i),
-        sh!("I-V", Sub, true, |a, i| i.clone() - a.clone()),
-        sh!("&I-V", Sub, true, |a, i| i - a.clone()),
-        sh!("I-F", Sub, true, |a, i| i.clone() - r(a)),
-        sh!("&I-F", Sub, true, |a, i| i - r(a)),
-        sh!("V-=I", Sub, false, |a, i| {
-            let mut t = a.clone();
-            t -= i.clone();
-            t
-        }),
-        sh!("V-=&I", Sub, false, |a, i| {
-            let mut t = a.clone();
-            t -= i;
-            t
-        }),
-        sh!("V*I", Mul, false, |a, i| a.clone() * i.clone()),
-        sh!("V*&I", Mul, false, |a, i| a.clone() * i),
-        sh!("R*I", Mul, false, |a, i| a * i.clone()),
-        sh!("R*&I", Mul, false, |a, i| a * i),
-        sh!("I*V", Mul, true, |a, i| i.clone() * a.clone()),
-        sh!("I*R", Mul, true, |a, i| i.clone() * a),
-        sh!("&I*V", Mul, true, |a, i| i * a.clone()),
-        sh!("&I*R", Mul, true, |a, i| i * a),
-        sh!("V*=I", Mul, false, |a, i| {
-            let mut t = a.clone();
-            t *= i.clone();
-            t
-        }),
-        sh!("V*=&I", Mul, false, |a, i| {
-            let mut t = a.clone();
-            t *= i;
-            t
-        }),
-    ]
-}
-
-/// the 32 shapes per primitive type
-macro_rules! prim_shapes {
-    ($t:ty) => {{
-        type FP = fn(&BigDecimal, $t) -> BigDecimal;
-        fn r(x: &BigDecimal) -> BigDecimalRef<'_> {
-            x.to_ref()
-        }
-        let v: Vec<Shape<FP>> = vec![
-            sh!("V+T", Add, false, |a, p| a.clone() + p),
-            sh!("R+T", Add, false, |a, p| a + p),
-            sh!("F+T", Add, false, |a, p| r(a) + p),
-            sh!("T+V", Add, true, |a, p| p + a.clone()),
-            sh!("T+R", Add, true, |a, p| p + a),
-            sh!("V+&T", Add, false, |a, p| a.clone() + &p),
-            sh!("R+&T", Add, false, |a, p| a + &p),
-            sh!("F+&T", Add, false, |a, p| r(a) + &p),
-            sh!("&T+V", Add, true, |a, p| &p + a.clone()),
-            sh!("&T+R", Add, true, |a, p| &p + a),
-            sh!("V+=T", Add, false, |a, p| {
-                let mut t = a.clone();
-                t += p;
-                t
-            }),
-            sh!("V+=&T", Add, false, |a, p| {
-                let mut t = a.clone();
-                t += &p;
-                t
-            }),
-            sh!("V-T", Sub, false, |a, p| a.clone() - p),
-            sh!("R-T", Sub, false, |a, p| a - p),
-            sh!("T-V", Sub, true, |a, p| p - a.clone()),
-            sh!("T-R", Sub, true, |a, p| p - a),
-            sh!("V-&T", Sub, false, |a, p| a.clone() - &p),
-            sh!("R-&T", Sub, false, |a, p| a - &p),
-            sh!("&T-V", Sub, true, |a, p| &p - a.clone()),
-            sh!("&T-R", Sub, true, |a, p| &p - a),
-            sh!("V-=T", Sub, false, |a, p| {
-                let mut t = a.clone();
-                t -= p;
-                t
-            }),
-            sh!("V-=&T", Sub, false, |a, p| {
-                let mut t = a.clone();
-                t -= &p;
-                t
-            }),
-            sh!("V*T", Mul, false, |a, p| a.clone() * p),
-            sh!("R*T", Mul, false, |a, p| a * p),
-            sh!("T*V", Mul, true, |a, p| p * a.clone()),
-            sh!("T*R", Mul, true, |a, p| p * a),
-            sh!("V*&T", Mul, false, |a, p| a.clone() * &p),
-            sh!("R*&T", Mul, false, |a, p| a * &p),
-            sh!("&T*V", Mul, true, |a, p| &p * a.clone()),
-            sh!("&T*R", Mul, true, |a, p| &p * a),
-            sh!("V*=T", Mul, false, |a, p| {
-                let mut t = a.clone();
-                t *= p;
-                t
-            }),
-            sh!("V*=&T", Mul, false, |a, p| {
-                let mut t = a.clone();
-                t *= &p;
-                t
-            }),
-        ];
-        v
-    }};
-}
+use props::shapes::*;
+use props::{prim_shapes, sh};
 
 /// value comparison of an observed result with the model's exact result (no string conversion)
 fn same_value(r: &BigDecimal, want: &Dec) -> bool {
